@@ -204,7 +204,9 @@ def r15_3(run, model, mir, need=None, core_header=True):
     for c in mir.calls:
         if not c["file"].startswith("crates/compiler/src/") or "/tests/" in c["file"]:
             continue
-        if not re.search(r"serde_json::(de::)?from_(str|slice|reader|value)", c["callee"]):
+        # serde_json::from_*  or an explicit `<T as Deserialize>::deserialize(&mut serde_json::Deserializer)`
+        explicit = re.search(r"Deserialize<'de> for artifact::(InterfaceUnit|CoreUnit)>::deserialize", c["callee"]) is not None
+        if not explicit and not re.search(r"serde_json::(de::)?from_(str|slice|reader|value)", c["callee"]):
             continue
         m = re.search(r"artifact::(InterfaceUnit|CoreUnit)", c["ret"])
         if not m:
